@@ -211,7 +211,17 @@ def r2(ctx):
       'pad_ids appends each item\'s values, then pad x (max_len - len), and records len; padding_mask likewise with true/false')
 def r3(ctx):
     b = ctx.body('data::pad_ids')
+    pm = ctx.body(T + 'padding_mask')
     R.clear()
+    # the rows are laid out item after item: the matrix has shape (number of items, maximum length), in this order -- the transposed shape holds the
+    # same number of elements, so from_shape_vec accepts it and every row is cut at the wrong place
+    for body_, what_ in ((b, 'pad_ids'), (pm, 'padding_mask')):
+        for t_ in body_.calls(r'from_shape_vec$'):
+            sh = core(sym(body_, t_.args[0]))
+            oks = sh[0] == 'agg' and sh[1] == 'tuple' and len(sh[3]) == 2 and match(core(init_value(body_, sh[3][0])), Call('len', ('arg', 1, ANY))) and \
+                has(init_value(body_, sh[3][1]), Call('Iterator::max', ANY))
+            ctx.require(oks, body_, 'shape|' + what_, '%s: the matrix has shape (items, max length)' % what_,
+                        '%s: the matrix is given the shape %s: rows and columns are exchanged, the values of an item no longer sit in its row' % (what_, show_in(body_, sh)[:80]), t_.span)
     R['padded_ids'] = _one(b, r'^std::vec::Vec<T>$', 'padded id vector')
     R['lengths'] = _one(b, r'^std::vec::Vec<usize>$', 'length vector')
     mlv = [core(t_.args[0] and sym(b, t_.dest)) for t_ in b.calls(r'Option::unwrap_or_default$|Option::unwrap_or$') if has(core(sym(b, t_.args[0])), Call('Iterator::max', ANY))]
@@ -222,6 +232,10 @@ def r3(ctx):
     def padded_rows(body, local, per_item_value, pad_pred, len_of_item, what):
         """rows: for every item, its values then pad x (max - len(item))"""
         segs = seq_of_var(ctx.facts, body, local)
+        if segs is not None and len(segs) == 1 and segs[0].kind == 'repeat' and list(body.calls(r'slice::(copy_from_slice|clone_from_slice|fill)$|IndexMut>::index_mut$')):
+            # a buffer pre-filled with the padding value whose rows are then overwritten in place: another construction of the same matrix,
+            # outside the append-only normal form this rule reads
+            raise AnchorMissing('%s: rows appended item by item (the buffer is pre-filled and overwritten in place)' % what.split('|')[0])
         top = segs[0] if segs is not None and len(segs) == 1 and segs[0].kind == 'nest' and not segs[0].conds and match(core(segs[0].src), ('arg', 1, ANY)) else None
         ok = top is not None and len(top.inner) == 2 and not any(x.conds for x in top.inner)
         if ok:
@@ -240,15 +254,22 @@ def r3(ctx):
         ctx.require(ok, body, what, '%s: per item its values, then the padding value x (max_len - len)' % what.split('|')[0],
                     '%s is built as %s' % (what.split('|')[0], [repr(x)[:200] for x in segs or ()]))
         return top
-    top = padded_rows(b, R['padded_ids'], lambda v: v.kind == 'each' and core(v.src) == ITEM and core(v.elem) == ('item', 1),
-                      lambda e: match(e, ('arg', 2, ANY)), lambda v: ('call', 'len', (v.src,)), 'pad-order')
+    pending = None       # an unrecognised construction of the padded buffer must not hide what the other clauses find
+    try:
+        top = padded_rows(b, R['padded_ids'], lambda v: v.kind == 'each' and core(v.src) == ITEM and core(v.elem) == ('item', 1),
+                          lambda e: match(e, ('arg', 2, ANY)), lambda v: ('call', 'len', (v.src,)), 'pad-order')
+    except AnchorMissing as e_:
+        pending = e_
     lsegs = seq_of_var(ctx.facts, b, R['lengths'])
-    ok = lsegs is not None and len(lsegs) == 1 and lsegs[0].kind == 'each' and not lsegs[0].conds and match(core(lsegs[0].src), ('arg', 1, ANY)) and \
-        match(core(lsegs[0].elem), Call('len', ITEM))
+    ok = lsegs is not None and len(lsegs) == 1 and lsegs[0].kind == 'each' and not lsegs[0].conds and \
+        ((match(core(lsegs[0].src), ('arg', 1, ANY)) and match(core(lsegs[0].elem), Call('len', ITEM))) or
+         (match(core(lsegs[0].src), Call('Iterator::enumerate', ('arg', 1, ANY))) and match(core(lsegs[0].elem), Call('len', ('field', ITEM, 1)))))
     ctx.require(ok, b, 'pad-lengths', 'pad_ids records the true length of every item', 'lengths are built as %s' % [repr(x)[:120] for x in lsegs or ()])
     pm = ctx.body(T + 'padding_mask')
     mloc = _one(pm, r'^std::vec::Vec<bool>$', 'mask vector')
     msegs = seq_of_var(ctx.facts, pm, mloc)
+    if msegs is not None and len(msegs) == 1 and msegs[0].kind == 'repeat' and list(pm.calls(r'slice::(copy_from_slice|clone_from_slice|fill)$|IndexMut>::index_mut$')):
+        raise (pending or AnchorMissing('padding_mask: rows appended item by item (the mask is pre-filled and overwritten in place)'))
     topm = msegs[0] if msegs is not None and len(msegs) == 1 and msegs[0].kind == 'nest' and not msegs[0].conds and match(core(msegs[0].src), ('arg', 1, ANY)) else None
     ok = topm is not None and len(topm.inner) == 2 and all(x.kind == 'repeat' and not x.conds for x in topm.inner)
     if ok:
@@ -263,15 +284,8 @@ def r3(ctx):
         else:
             ok = False
     ctx.require(ok, pm, 'mask-order', 'padding_mask: len x true, then (max - len) x false', 'the mask is built as %s' % [repr(x)[:200] for x in msegs or ()])
-    # the rows are laid out item after item: the matrix has shape (number of items, maximum length), in this order -- the transposed shape holds the
-    # same number of elements, so from_shape_vec accepts it and every row is cut at the wrong place
-    for body_, what_ in ((b, 'pad_ids'), (pm, 'padding_mask')):
-        for t_ in body_.calls(r'from_shape_vec$'):
-            sh = core(sym(body_, t_.args[0]))
-            oks = sh[0] == 'agg' and sh[1] == 'tuple' and len(sh[3]) == 2 and match(core(init_value(body_, sh[3][0])), Call('len', ('arg', 1, ANY))) and \
-                has(init_value(body_, sh[3][1]), Call('Iterator::max', ANY))
-            ctx.require(oks, body_, 'shape|' + what_, '%s: the matrix has shape (items, max length)' % what_,
-                        '%s: the matrix is given the shape %s: rows and columns are exchanged, the values of an item no longer sit in its row' % (what_, show_in(body_, sh)[:80]), t_.span)
+    if pending is not None:
+        raise pending
 
 
 @rule('C17', 'R-C17-4', 'T13 PAIR (sparse aggregation matrix)',
@@ -348,6 +362,9 @@ def r4(ctx):
         planes[which] = t
     if not planes:
         raise AnchorMissing('range writes into the index planes / values of the sparse matrix')
+    if not ({0, 1, 2} & set(planes)) and list(b.calls(r'slice::split_at_mut$|split_at_mut$|chunks_mut$|chunks_exact_mut$')):
+        # the three planes as separate sub-slices of the buffer (split_at_mut): another representation of the same layout, not judged here
+        raise AnchorMissing('the index planes as ranges [k*stride + offset ..) of one buffer (the buffer is split into plane slices)')
     ctx.require({0, 1, 2, 'values'} <= set(planes), b, 'planes', 'batch / group / token index planes and the values are written over [offset, offset + group_len) at 0, stride, 2*stride',
                 'planes written: %s' % sorted(str(k) for k in planes))
     def plane_value(t):
@@ -667,3 +684,42 @@ def r14(ctx):
     from rules.common import py_encoding_agrees
     py_encoding_agrees(ctx, 'tokenization::GroupAggregation', {'Mean', 'Sum'})
     py_encoding_agrees(ctx, 'tokenization::ByteGroups', {'Bytes', 'CodePoints'})
+
+
+@rule('C17', 'R-C17-15', 'T13 PAIR (a padded matrix travels with its own lengths)',
+      'every tensorised variant pairs a padded id matrix with the length vector OF THE SAME pad_ids call (component 0 and component 1 of one call): '
+      'lengths taken from the labels\' padding report the number of labels, which differs from the number of ids as soon as a byte tokenizer meets '
+      'a multi-byte character')
+def r15(ctx):
+    cands = [b for b in ctx.facts.bodies if b.path.endswith('::tensorize') and b.kind != 'Closure' and b.impl_self and 'TrainItem' in b.impl_self and b.file() == 'src/data/mod.rs']
+    if len(cands) != 1:
+        raise AnchorMissing('Batch<TrainItem>::tensorize (found %d)' % len(cands))
+    b = cands[0]
+    from analysis.alts import expand, flatten
+    n = 0
+    for s_ in b.stmts():
+        if s_.kind != 'assign' or s_.rv.kind != 'agg':
+            continue
+        try:
+            v = simplify(symbolizer(b).rvalue(s_.rv, 0, ()))
+        except Exception:
+            continue
+        if not (v[0] == 'agg' and v[1] == 'adt' and 'TensorizedTrainTaskInput' in v[2]):
+            continue
+        comps = list(v[3])
+        for i, c_ in enumerate(comps):
+            ty_is_len = False
+            cc = core(c_)
+            # a length vector: component 1 of a pad_ids result (directly, or through the tuple a spliced helper returned)
+            alts_ = [core(a_.value) for a_ in flatten(expand(ctx.facts, b, nosite(c_)))] or [cc]
+            for ac in alts_:
+                if ac[0] == 'field' and ac[2] == 1 and match(core(ac[1]), Call('pad_ids', ANY, ANY)):
+                    n += 1
+                    prev = [core(a_.value) for a_ in flatten(expand(ctx.facts, b, nosite(comps[i - 1])))] if i > 0 else []
+                    same = any(p_[0] == 'field' and p_[2] == 0 and nosite(core(p_[1])) == nosite(core(ac[1])) for p_ in prev)
+                    ctx.require(same, b, 'lengths-of-own-matrix|' + v[2].rsplit('::', 1)[-1] + '|%d' % i,
+                                '%s: the lengths in position %d belong to the matrix in position %d (same pad_ids call)' % (v[2].rsplit('::', 1)[-1], i, i - 1),
+                                '%s: the lengths in position %d come from `%s`, the matrix before them from `%s`: the reported lengths are not the true lengths of that matrix' % (
+                                    v[2].rsplit('::', 1)[-1], i, show_in(b, ac[1])[:60], show_in(b, prev[0])[:60] if prev else '?'), s_.span)
+    if n < 5:
+        raise AnchorMissing('length vectors of pad_ids in the tensorised variants (found %d)' % n)
